@@ -170,7 +170,7 @@ func TestThorough(t *testing.T) {
 	if shard, _ := evid.Shard(); shard == 0 {
 		fix.Pinned(t, prop, replay)
 	}
-	fix.Check(t, "reexec", 10000, func(rt *rapid.T) { run(rt, drawCase(rt)) })
+	fix.Check(t, "reexec", 40000, func(rt *rapid.T) { run(rt, drawCase(rt)) })
 }
 
 func TestReplay(t *testing.T) {
